@@ -172,7 +172,7 @@ func cmdFunc(args []string) {
 			cnt[status]++
 			if kl := os.Getenv("GOVC_KEEPLABEL"); kl != "" && o.Label == kl && *keep != "" {
 				os.MkdirAll(*keep, 0o755)
-				os.WriteFile(filepath.Join(*keep, sanitize(fmt.Sprintf("%s-p%d-%s", o.Name(), o.Path, status))+".smt2"), []byte(s.m.queryOf[o]), 0o644)
+				os.WriteFile(filepath.Join(*keep, sanitize(fmt.Sprintf("%s-p%d-%s", o.Name(), o.Path, status))+".smt2"), []byte(s.m.fullQuery(s.smt, o)), 0o644)
 			}
 			if status != "unsat" && status != "ok(sat)" {
 				bad++
@@ -188,15 +188,31 @@ func cmdFunc(args []string) {
 					}
 				}
 				if *dump {
-					fmt.Println(s.m.queryOf[o])
+					fmt.Println(s.m.fullQuery(s.smt, o))
 				}
 				if *keep != "" {
 					os.MkdirAll(*keep, 0o755)
-					os.WriteFile(filepath.Join(*keep, sanitize(fmt.Sprintf("%s-p%d", o.Name(), o.Path))+".smt2"), []byte(s.m.queryOf[o]), 0o644)
+					os.WriteFile(filepath.Join(*keep, sanitize(fmt.Sprintf("%s-p%d", o.Name(), o.Path))+".smt2"), []byte(s.m.fullQuery(s.smt, o)), 0o644)
 				}
 			}
 		}
-		fmt.Printf("   summary: %v\n", cnt)
+		if os.Getenv("GOVC_BYNAME") != "" {
+			byName := map[string]int{}
+			byBack := map[string]int{}
+			for _, o := range rep.Obligs {
+				byName[o.Name()]++
+				byBack[o.Name()+" "+o.Res.Backend]++
+			}
+			var ns []string
+			for n := range byBack {
+				ns = append(ns, n)
+			}
+			sort.Strings(ns)
+			for _, n := range ns {
+				fmt.Printf("   %6d %s\n", byBack[n], n)
+			}
+		}
+		fmt.Printf("   summary: %v solver-runs=%d solver-s=%.1f\n", cnt, s.smt.queries, s.smt.solverS)
 	}
 	s.smt.cleanup()
 	if bad > 0 {
